@@ -494,6 +494,15 @@ def no_instance_params(cls):
     return cls
 
 
+def _clear_params_cache(cls):
+    """Clear the cached params() of a Parameterized class and of all its subclasses."""
+    private = cls.__dict__.get('_param__private')
+    if private is not None:
+        private.params.clear()
+    for subcls in type.__subclasses__(cls):
+        _clear_params_cache(subcls)
+
+
 def _instantiate_param_obj(paramobj, owner=None):
     """Return a Parameter object suitable for instantiation given the class's Parameter object."""
     # Shallow-copy Parameter object without the watchers
@@ -2448,8 +2457,9 @@ class Parameters:
         cls = self_.cls
         type.__setattr__(cls, param_name, param_obj)
         ParameterizedMetaclass._initialize_parameter(cls, param_name, param_obj)
-        # delete cached params()
-        cls._param__private.params.clear()
+        # delete cached params() (also of the subclasses, which inherit
+        # the new Parameter)
+        _clear_params_cache(cls)
 
     # PARAM3_DEPRECATION
     @_deprecated(extra_msg="Use instead `.param.add_parameter`", warning_cat=_ParamFutureWarning)
@@ -4445,6 +4455,9 @@ class ParameterizedMetaclass(type):
                 parameter = copy.copy(parameter)
                 parameter.owner = mcs
                 type.__setattr__(mcs,attribute_name,parameter)
+                # the copy replaces the inherited Parameter in the cached
+                # params() of this class and of its subclasses
+                _clear_params_cache(mcs)
             mcs.__dict__[attribute_name].__set__(None,value)
 
         else:
